@@ -14,6 +14,9 @@ MODULES = {
     "C19": "p_generic",
     "C01": "p_spec",
     "C05": "p_spec",
+    "C06": "p_text",
+    "C04": "p_text",
+    "C17": "p_text",
 }
 
 
